@@ -117,6 +117,9 @@ mod unit;
 mod utils;
 mod value;
 
+#[cfg(grass_verif)]
+pub mod verif;
+
 fn raw_to_parse_error(map: &CodeMap, err: Error, unicode: bool) -> Box<Error> {
     let (message, span) = err.raw();
     Box::new(Error::from_loc(message, map.look_up_span(span), unicode))
